@@ -132,7 +132,7 @@ def intake(prop, src=None, extra_props=()):
         tag = 'r' + src.rstrip('/').split('/')[-2].replace('seedout', '') + '-'
     src = src or f'/tmp/seedout/{prop}'
     with ThreadPoolExecutor(max_workers=3) as ex:
-        for rep in ex.map(lambda i: intake_one(prop, src, i, list(extra_props), tag), range(1, 6)):
+        for rep in ex.map(lambda i: intake_one(prop, src, i, list(extra_props), tag), range(1, 8)):
             if rep is None:
                 continue
             print(json.dumps({k: v for k, v in rep.items() if k not in ('checks',)}, default=str)[:900])
